@@ -489,6 +489,10 @@ class Interp:
                     exc = AVal(('exc', 'CancelledError'), None)
                     sc.emit('raise', n, exc=exc, implicit='cancel')
                     yield sc, RAISE, exc
+            if itv.term[0] in ('tuple', 'list') and not isinstance(n, ast.AsyncFor) and len(itv.term[1]) <= 6 and \
+                    all(isinstance(x, AVal) for x in itv.term[1]):
+                yield from self._unrolled_for(n, list(itv.term[1]), s)
+                continue
             # zero iterations
             s0 = s.fork()
             s0.emit('loop', n, phase='skip')
@@ -518,6 +522,23 @@ class Interp:
                         yield s2, o2, v2
 
     _st_AsyncFor = _st_For
+
+    def _unrolled_for(self, n, elems, st):
+        """A loop over a literal tuple/list of known elements is executed exactly (sequentially unrolled)."""
+        if not elems:
+            yield from self._exec_block(n.orelse, st)
+            return
+        first, rest = elems[0], elems[1:]
+        st.emit('loop', n, phase='enter', unrolled=True)
+        self._store(n.target, first, st, n)
+        for s2, o2, v2 in self._exec_block(n.body, st):
+            if o2 == BREAK:
+                s2.emit('loop', n, phase='break')
+                yield s2, FALL, None
+            elif o2 in (FALL, CONTINUE):
+                yield from self._unrolled_for(n, rest, s2)
+            else:
+                yield s2, o2, v2
 
     def _st_With(self, n, st):
         yield from self._with_items(n, list(n.items), st)
@@ -1078,10 +1099,17 @@ class Interp:
                     types.extend(x for x in t if isinstance(x, (ClassInfo, External)))
             if value is None:
                 continue
+            if isinstance(value, (ast.Dict, ast.List, ast.Set, ast.ListComp, ast.DictComp, ast.SetComp, ast.Tuple)):
+                types.append(External('builtins.' + type(value).__name__.lower()))
+                continue
             if isinstance(value, ast.Call):
                 r = self.repo.resolve_expr(f.module, value.func, f.cls)
                 if isinstance(r, ClassInfo):
                     types.append(('exact', r))
+                    continue
+                if isinstance(r, External) or (r is None and isinstance(value.func, ast.Name) and value.func.id in (
+                        'dict', 'list', 'set', 'bytearray', 'bytes', 'tuple', 'object', 'int', 'str')):
+                    types.append(External(r.qualname if isinstance(r, External) else 'builtins.' + value.func.id))
                     continue
                 if isinstance(r, list) and len(r) == 1 and r[0].node.returns is not None:
                     t = self.repo.annotation_types(r[0].module, r[0].node.returns, r[0].cls)
@@ -1603,6 +1631,12 @@ class Interp:
                 exc = AVal(('exc', 'AppException'), None)
                 sr.emit('raise', e, exc=exc, implicit='app', call=ev.seq)
                 yield sr, None, (RAISE, exc)
+            if 'transport' in self.opt.exc and how in ('app', 'atomic_repo', 'unknown') and awaited:
+                sr = st.fork()
+                tcls = self.repo.cls('rsocket.exceptions:RSocketTransportError')
+                exc = AVal(('exc', 'RSocketTransportError'), [tcls], exact=True)
+                sr.emit('raise', e, exc=exc, implicit='transport', call=ev.seq)
+                yield sr, None, (RAISE, exc)
             yield st, value, None
 
         if kind == 'ctor':
@@ -1732,7 +1766,36 @@ class Interp:
         return out or None
 
     def _summary_may_raise(self, funcs) -> bool:
-        return True
+        """May a call of one of these (un-inlined) repository functions raise when application call-outs may raise?
+        Decided by interpreting the callee itself with exception edges; cached per function; conservative (True)
+        on recursion or when the callee is too large to enumerate."""
+        cache = self.repo.__dict__.setdefault('_may_raise_cache', {})
+        busy = self.repo.__dict__.setdefault('_may_raise_busy', set())
+        for f in funcs or []:
+            if f.qualname in cache:
+                if cache[f.qualname]:
+                    return True
+                continue
+            if f.qualname in busy:
+                return True
+            busy.add(f.qualname)
+            try:
+                sub = Interp(self.repo, Options(exc=('app',), inline_depth=4, max_paths=400))
+                cls = f.cls
+                if cls is not None and self.repo.is_abstract(cls):
+                    cs = self.repo.concrete_subclasses(cls)
+                    cls = cs[0] if cs else cls
+                try:
+                    ps = sub.run(f, cls)
+                    res = any(p.outcome == RAISE for p in ps)
+                except AnalysisError:
+                    res = True
+            finally:
+                busy.discard(f.qualname)
+            cache[f.qualname] = res
+            if res:
+                return True
+        return False
 
     def _may_inline(self, f: FuncInfo, st: State) -> bool:
         if len(st.frames) >= self.opt.inline_depth:
@@ -1786,12 +1849,7 @@ class Interp:
             elif p.arg in kw:
                 locals_[p.arg] = kw.pop(p.arg)
             elif defaults[i] is not None and not star_extra and '**' not in kw:
-                try:
-                    locals_[p.arg] = const(self.repo.const(f.module, defaults[i]))
-                except (KeyError, TypeError, ValueError):
-                    r = self.repo.resolve_expr(f.module, defaults[i], f.cls)
-                    locals_[p.arg] = self._static_val(r, f.module, ast.unparse(defaults[i])) if r is not None else \
-                        AVal(('default', f.qualname, p.arg))
+                locals_[p.arg] = self._static_expr(f, defaults[i], p.arg)
             else:
                 locals_[p.arg] = AVal(('param', f.qualname, p.arg, next(self._site)),
                                       self._usable_types(self.repo.annotation_types(f.module, p.annotation, f.cls)))
@@ -1817,6 +1875,23 @@ class Interp:
                 if t:
                     locals_[p.arg] = AVal(v.term, t, False)
         return Frame(f, locals_, self_val, defining, len(st.frames) + 1, closure)
+
+    def _static_expr(self, f: FuncInfo, expr: ast.expr, label: str) -> AVal:
+        """Value of a default-argument expression (evaluated in module scope): enum members keep their identity."""
+        if isinstance(expr, ast.Attribute):
+            r = self.repo.resolve_expr(f.module, expr, f.cls)
+            if isinstance(r, tuple) and r[0] == 'classattr':
+                k = r[1]
+                base = AVal(('class', k.qualname), [k], exact=True)
+                st = State()
+                return self._get_attr(base, r[2], st)
+        try:
+            return const(self.repo.const(f.module, expr))
+        except (KeyError, TypeError, ValueError):
+            r = self.repo.resolve_expr(f.module, expr, f.cls)
+            if r is not None:
+                return self._static_val(r, f.module, ast.unparse(expr))
+            return AVal(('default', f.qualname, label))
 
     def _inline(self, e, f: FuncInfo, callee, pos, kw, st: State, awaited: bool):
         frame = self._make_frame(f, callee, (pos, kw), st, e)
